@@ -186,6 +186,8 @@ impl<D: Device, P: Protocol, S: Socket, TS: TimeSource> GenericCloud<D, P, S, TS
             msg_data.set_length(msg.len());
             msg_data.message_mut().clone_from_slice(msg.message());
             peer.crypto.send_message(type_, &mut msg_data)?;
+            #[cfg(dswd_vpncloud_verif)]
+            verif_event("bcast", Some(*addr), type_, None);
             self.traffic.count_out_traffic(*addr, msg_data.len());
             match self.socket.send(msg_data.message(), *addr) {
                 Ok(written) if written == msg_data.len() => Ok(()),
@@ -200,6 +202,8 @@ impl<D: Device, P: Protocol, S: Socket, TS: TimeSource> GenericCloud<D, P, S, TS
     fn send_to(&mut self, addr: SocketAddr, msg: &mut MsgBuffer) -> Result<(), Error> {
         // HOT PATH
         debug!("Sending msg with {} bytes to {}", msg.len(), addr);
+        #[cfg(dswd_vpncloud_verif)]
+        verif_event("raw", Some(addr), 0, None);
         self.traffic.count_out_traffic(addr, msg.len());
         match self.socket.send(msg.message(), addr) {
             Ok(written) if written == msg.len() => Ok(()),
@@ -217,6 +221,8 @@ impl<D: Device, P: Protocol, S: Socket, TS: TimeSource> GenericCloud<D, P, S, TS
             None => return Err(Error::Message("Sending to node that is not a peer")),
         };
         peer.crypto.send_message(type_, msg)?;
+        #[cfg(dswd_vpncloud_verif)]
+        verif_event("typed", Some(addr), type_, None);
         self.send_to(addr, msg)
     }
 
@@ -773,6 +779,8 @@ impl<D: Device, P: Protocol, S: Socket, TS: TimeSource> GenericCloud<D, P, S, TS
         &mut self, src: SocketAddr, msg_result: MessageResult<NodeInfo>, data: &mut MsgBuffer,
     ) -> Result<(), Error> {
         // HOT PATH
+        #[cfg(dswd_vpncloud_verif)]
+        verif_event_result(src, &msg_result);
         match msg_result {
             MessageResult::Message(type_) => {
                 // HOT PATH
@@ -790,6 +798,8 @@ impl<D: Device, P: Protocol, S: Socket, TS: TimeSource> GenericCloud<D, P, S, TS
                                 return Err(err);
                             }
                         };
+                        #[cfg(dswd_vpncloud_verif)]
+                        verif_event("info", Some(src), type_, Some(&info));
                         self.update_peer_info(src, Some(info))?
                     }
                     MESSAGE_TYPE_KEEPALIVE => {
@@ -907,6 +917,8 @@ impl<D: Device, P: Protocol, S: Socket, TS: TimeSource> GenericCloud<D, P, S, TS
             Err(e @ Error::CryptoInitFatal(_)) => {
                 // COLD PATH
                 debug!("Fatal crypto init error from {}: {}", src, e);
+                #[cfg(dswd_vpncloud_verif)]
+                verif_event("err-fatal", Some(src), 0, None);
                 info!("Closing pending connection to {} due to error in crypto init", addr_nice(src));
                 self.pending_inits.remove(&src);
                 self.config.call_hook(
@@ -918,10 +930,14 @@ impl<D: Device, P: Protocol, S: Socket, TS: TimeSource> GenericCloud<D, P, S, TS
             Err(e @ Error::CryptoInit(_)) => {
                 // COLD PATH
                 debug!("Recoverable init error from {}: {}", src, e);
+                #[cfg(dswd_vpncloud_verif)]
+                verif_event("err-init", Some(src), 0, None);
                 info!("Ignoring invalid init message from peer {}", addr_nice(src));
             }
             Err(e) => {
                 // COLD PATH
+                #[cfg(dswd_vpncloud_verif)]
+                verif_event("err-other", Some(src), 0, None);
                 error!("{}", e);
             }
             Ok(_) => {} // HOT PATH
@@ -1131,5 +1147,101 @@ impl<D: Device, P: Protocol, S: Socket, TS: TimeSource> GenericCloud<D, P, S, TS
 
     pub fn verif_table(&self) -> &ClaimTable<TS> {
         &self.table
+    }
+}
+
+#[cfg(dswd_vpncloud_verif)]
+#[derive(Clone, Debug)]
+pub struct VerifInfo {
+    pub node_id: NodeId,
+    pub peers: Vec<(Option<NodeId>, Vec<SocketAddr>)>,
+    pub claims: Vec<Range>,
+    pub peer_timeout: Option<u16>,
+    pub addrs: Vec<SocketAddr>,
+}
+
+#[cfg(dswd_vpncloud_verif)]
+#[derive(Clone, Debug)]
+pub struct VerifEvent {
+    pub kind: &'static str,
+    pub addr: Option<SocketAddr>,
+    pub msg_type: u8,
+    pub info: Option<VerifInfo>,
+}
+
+#[cfg(dswd_vpncloud_verif)]
+thread_local! {
+    /// event log of the node(s) driven on this thread; `None` = disabled (the default)
+    pub static VERIF_EVENTS: std::cell::RefCell<Option<Vec<VerifEvent>>> = std::cell::RefCell::new(None);
+}
+
+#[cfg(dswd_vpncloud_verif)]
+fn verif_event(kind: &'static str, addr: Option<SocketAddr>, msg_type: u8, info: Option<&NodeInfo>) {
+    VERIF_EVENTS.with(|l| {
+        if let Some(log) = l.borrow_mut().as_mut() {
+            let info = info.map(|i| VerifInfo {
+                node_id: i.node_id,
+                peers: i.peers.iter().map(|p| (p.node_id, p.addrs.to_vec())).collect(),
+                claims: i.claims.to_vec(),
+                peer_timeout: i.peer_timeout,
+                addrs: i.addrs.to_vec(),
+            });
+            log.push(VerifEvent { kind, addr, msg_type, info });
+        }
+    })
+}
+
+#[cfg(dswd_vpncloud_verif)]
+fn verif_event_result(src: SocketAddr, res: &MessageResult<NodeInfo>) {
+    match res {
+        MessageResult::Message(t) => verif_event("msg", Some(src), *t, None),
+        MessageResult::Initialized(info) => verif_event("initialized", Some(src), 0, Some(info)),
+        MessageResult::InitializedWithReply(info) => verif_event("initialized-reply", Some(src), 0, Some(info)),
+        MessageResult::Reply => verif_event("reply", Some(src), 0, None),
+        MessageResult::None => verif_event("none", Some(src), 0, None),
+    }
+}
+
+#[cfg(dswd_vpncloud_verif)]
+pub fn verif_events_start() {
+    VERIF_EVENTS.with(|l| *l.borrow_mut() = Some(Vec::new()))
+}
+
+#[cfg(dswd_vpncloud_verif)]
+pub fn verif_events_stop() {
+    VERIF_EVENTS.with(|l| *l.borrow_mut() = None)
+}
+
+#[cfg(dswd_vpncloud_verif)]
+pub fn verif_events_take() -> Vec<VerifEvent> {
+    VERIF_EVENTS.with(|l| l.borrow_mut().as_mut().map(std::mem::take).unwrap_or_default())
+}
+
+#[cfg(dswd_vpncloud_verif)]
+impl<D: Device, P: Protocol, S: Socket, TS: TimeSource> GenericCloud<D, P, S, TS> {
+    /// handshake objects of the node: (address, held by a peer entry?, stage, failed retries, close time)
+    pub fn verif_init_objects(&self) -> Vec<(SocketAddr, bool, u8, usize, usize)> {
+        let pend = self.pending_inits.iter().filter_map(|(a, p)| {
+            p.verif_init().map(|i| {
+                let (r, c) = i.verif_counters();
+                (*a, false, i.stage(), r, c)
+            })
+        });
+        let peers = self.peers.iter().filter_map(|(a, p)| {
+            p.crypto.verif_init().map(|i| {
+                let (r, c) = i.verif_counters();
+                (*a, true, i.stage(), r, c)
+            })
+        });
+        pend.chain(peers).collect()
+    }
+
+    /// addresses each peer advertised for itself (first entry: the address it was seen at)
+    pub fn verif_peer_addrs(&self) -> Vec<(SocketAddr, Vec<SocketAddr>)> {
+        self.peers.iter().map(|(a, p)| (*a, p.addrs.to_vec())).collect()
+    }
+
+    pub fn verif_timers(&self) -> (Time, Time) {
+        (self.next_peers, self.next_own_address_reset)
     }
 }
